@@ -442,10 +442,15 @@ class DA:
             dim = [dim]
         arr = self.data
         dims = list(self.dims)
+        coords = dict(self.coords)
         for d in reversed(dim):
             arr = arr[(None,) + (slice(None),) * arr.ndim] if axis == 0 else A.NP.expand_dims(arr, axis)
             dims.insert(axis if axis >= 0 else len(dims) + 1 + axis, d)
-        return self._new(tuple(dims), arr)
+            if d in coords and coords[d].ndim == 0:
+                # a scalar coordinate of that name becomes the (length 1) index coordinate
+                s0 = coords[d]._as_sym()
+                coords[d] = DA(Arr.from_list([s0]), dims=(d,), name=d, attrs=coords[d].attrs)
+        return self._new(tuple(dims), arr, coords)
 
     def squeeze(self, dim=None, drop=False):
         keep = [d for d in self.dims if conc(self.extent(d)) != 1]
@@ -816,7 +821,7 @@ def _sel_one(da, d, v, method):
 def da_binary(f, a, b, kind=None):
     """broadcast-by-name binary operation (xarray arithmetic contract; coordinates of a
     shared dimension must be identical - otherwise xarray would align by label)"""
-    A_, B_ = _lift(a), _lift(b)
+    A_, B_ = _lift(a, b), _lift(b, a)
     dims = tuple(A_.dims) + tuple(d for d in B_.dims if d not in A_.dims)
     shape = []
     for d in dims:
@@ -865,23 +870,20 @@ def _check_alignment(A_, B_, d):
         return
     # provably equal labels?
     q = Sym(z3.Int(fresh_name("q")))
-    s = z3.Solver()
-    s.set("timeout", 2000)
-    for h in CTX.pc:
-        s.add(h)
-    s.add(q.t >= 0, q.t < ext(ca.extent(d)).t)
     va, vb = ca.at({d: q}), cb.at({d: q})
-    s.add(va.real() != vb.real())
-    if s.check() != z3.unsat:
+    if not CTX.entails(z3.Implies(z3.And(q.t >= 0, q.t < ext(ca.extent(d)).t), va.real() == vb.real())):
         raise Outside(f"alignment by label on dimension {d!r} (coordinates not provably identical)")
 
 
-def _lift(x):
+def _lift(x, partner=None):
     if isinstance(x, DA):
         return x
     if isinstance(x, Arr):
         if x.ndim == 0:
             return DA(x, dims=())
+        if partner is not None and isinstance(partner, DA) and x.ndim <= partner.ndim:
+            # DataArray (op) ndarray: positional broadcasting against the trailing dims
+            return DA(x, dims=partner.dims[partner.ndim - x.ndim:])
         raise Outside("arithmetic between DataArray and bare ndarray")
     if isinstance(x, DS):
         raise Outside("arithmetic with Dataset")
